@@ -29,7 +29,7 @@ ID = 'C07'
 LEVEL = 'exploration'
 RULE = ('case = 1..4 pfile.py-written code files (family pool of 1..5 out of the 99 families of the manual table whose CODE granularity is known, '
         'segments 1..9, short and $81 headers, entry records, record lengths from {0, 1 unit, 255..257, 8191..8193 (PBIND copy buffer), 16384, '
-        '65534, 65535} or random < 3000, start addresses over the whole 32-bit range) bound by PBIND without / with a -f list (1..6 headers in '
+        '65534, 65535} or random < 3000, start addresses over the whole 32-bit range) bound by PBIND without / with a -f list (1..9 headers in '
         '$hex, 0xhex, hexh or decimal spelling, possibly naming absent families), then listed by PLIST (output file and one input); '
         'non-trivial = at least one data record in the inputs; distinct = distinct (file count, filter class, set of '
         '(header kind, CODE/other segment, granularity) and set of length classes over all input records, entry records present)')
@@ -168,7 +168,6 @@ def check_bind(out, inputs, flt, outbuf, tag):
     if obs_seq == exp:
         out.obs['bind_conserved'] += 1
         return got
-    fl = 'f' if flt is not None else 'nof'
     desc = '%s: expected %d %s, output holds %d; ' % (tag, len(exp), what, len(obs_seq))
 
     def show(x):
@@ -198,7 +197,6 @@ def check_bind(out, inputs, flt, outbuf, tag):
             out.violate('pbind:record-altered:entry-address', desc + 'position %d expected %s, found %s' % (i, show(exp[i]), show(obs_seq[i])))
         else:
             out.violate('pbind:record-sequence-differs', desc + 'first difference at position %d' % i)
-    del fl
     return got
 
 
